@@ -396,11 +396,15 @@ macro_rules! impl_logical {
 }
 
 macro_rules! impl_cmp {
-    ($func_name:ident, $op:tt) => {
+    ($func_name:ident, $op:tt, $unsupported:pat) => {
         #[inline(always)]
         pub fn $func_name(self, rhs: Self, _gc: &mut GC) -> Result<Object, Error> {
             if self.tag() != rhs.tag() {
                 return Err(Error::TypeError(format!("kan objecten met type {} en type {} niet vergelijken", self.tag(), rhs.tag())));
+            }
+
+            if matches!(self.tag(), $unsupported) {
+                return Err(Error::TypeError(format!("kan geen {} doen op objecten van type {}", stringify!($op), self.tag())));
             }
 
             // Delegate actual comparison to PartialOrd/PartialEq implementation
@@ -416,12 +420,12 @@ impl Object {
     impl_arith!(div, /);
     impl_arith!(rem, %);
 
-    impl_cmp!(gt, >);
-    impl_cmp!(gte, >=);
-    impl_cmp!(lt, <);
-    impl_cmp!(lte, <=);
-    impl_cmp!(eq, ==);
-    impl_cmp!(neq, !=);
+    impl_cmp!(gt, >, Type::Array | Type::Function);
+    impl_cmp!(gte, >=, Type::Array | Type::Function);
+    impl_cmp!(lt, <, Type::Array | Type::Function);
+    impl_cmp!(lte, <=, Type::Array | Type::Function);
+    impl_cmp!(eq, ==, Type::Array);
+    impl_cmp!(neq, !=, Type::Array);
 
     impl_logical!(and, &&);
     impl_logical!(or, ||);
